@@ -6,6 +6,6 @@ CONSTANTS
   Thr = 1
   Inputs <- In_K4_AT_12
   Dump = FALSE
-INVARIANTS Valid NoPanic AvailDisjoint LinksOK Emit
+INVARIANTS Valid NoPanic AvailDisjoint LinksOK ExportOK Emit
 PROPERTY AvailShrinks
 CHECK_DEADLOCK FALSE
